@@ -586,6 +586,65 @@ def r7_fit_model_forwards(ctx):
               "fit_model applies preprocessing under a different condition")
 
 
+def r9_failed_pipeline_leaves_raw_data(ctx):
+    """A pipeline that fails part-way (unknown step, missing requirement,
+    a step that raises) has already edited columns.  Nothing remembers
+    it, so the curve must be back at its raw data when the exception
+    leaves - in preproc.apply itself or in apply_preprocessing."""
+    pre = ctx.repo.mod("preproc")
+    fn = pre.func("apply")
+    ctx.analysed(fn)
+    first = fn.args.args[0].arg
+    cfg = CFG(fn)
+    resets = [n for n in cfg.nodes if any(
+        call_name(c) == f"{first}.reset_data" for c in fitrules.node_calls(n))]
+    if not resets:
+        raise Undecided("preproc.apply has no reset_data()")
+    loops = [n for n in walk_no_nested(fn, False) if isinstance(n, ast.For)
+             and "identifiers" in norm(n.iter)]
+    if not loops:
+        raise AnchorError("apply has no loop over identifiers")
+    lp = loops[0]
+    body_nodes = [n for n in cfg.nodes if n.ast is not None and any(
+        x is n.ast for s in lp.body for x in ast.walk(s))]
+    raisers = [n for n in body_nodes if any(
+        lab == "exc" for _, lab in cfg.succ[n.id])]
+    ctx.floor("statements of the step loop that can raise", len(raisers), 2)
+    rid = {n.id for n in resets}
+    leaky = None
+    for n in raisers:
+        r = cfg.reach([n.id], avoid=rid, via_first=("exc",))
+        if cfg.rexit in r:
+            leaky = leaky or n
+    if leaky is None:
+        ctx.ok(lp, "an exception in the step loop passes reset_data() "
+               "before it leaves preproc.apply")
+        return
+    # ... or the caller restores the raw data
+    ind = ctx.repo.mod("indent")
+    ap = ind.func("Indentation.apply_preprocessing")
+    cfg2 = CFG(ap)
+    calls = [n for n in cfg2.nodes if any(
+        call_name(c) in ("preproc.apply", "apply")
+        for c in fitrules.node_calls(n))]
+    rs2 = {n.id for n in cfg2.nodes if any(
+        call_name(c) in ("self.reset_data",)
+        for c in fitrules.node_calls(n))}
+    caller_ok = bool(calls) and bool(rs2) and all(
+        cfg2.rexit not in cfg2.reach([c.id], avoid=rs2, via_first=("exc",))
+        for c in calls)
+    ctx.check(caller_ok, leaky.ast,
+              "a failing pipeline leaves the curve at its raw data",
+              "when a step of the pipeline raises (unknown identifier, "
+              "missing requirement, failing step), the columns edited by "
+              "the steps before it stay, while no pipeline is remembered: "
+              "a later fit stores the default (empty) pipeline as applied "
+              "and apply_preprocessing([], {}) is then skipped - the "
+              "curve keeps half-preprocessed columns that a fresh curve "
+              "does not have (neither preproc.apply nor "
+              "apply_preprocessing resets the data on the exception path)")
+
+
 def r8_remembered_after_success(ctx):
     """self.preprocessing / self.preprocessing_options are (re)assigned only
     where preproc.apply can no longer fail."""
@@ -626,6 +685,8 @@ RULES = [
      "unchanged", r6_skip_test),
     ("C06-R7", "fit_model forwards steps and options; remembered options "
      "only when the keyword is absent", r7_fit_model_forwards),
+    ("C06-R9", "a pipeline that fails part-way leaves the curve at its raw "
+     "data", r9_failed_pipeline_leaves_raw_data),
     ("C06-R8", "the remembered pipeline attributes are assigned only after "
      "the pipeline ran", r8_remembered_after_success),
 ]
